@@ -637,7 +637,13 @@ impl<W: Write + io::Seek> ZipWriter<W> {
 
         let data_start = file.data_start.get_mut();
 
-        if !self.writing_to_central_extra_field_only {
+        // The extra data is accepted: leave extra-data mode now, so that a failure below (I/O error,
+        // unsupported method or level in `switch_to`) cannot leave the flag set on a closed writer.
+        let central_only = self.writing_to_central_extra_field_only;
+        self.writing_to_extra_field = false;
+        self.writing_to_central_extra_field_only = false;
+
+        if !central_only {
             let writer = self.inner.get_plain();
 
             // Append extra data to local file header and keep it for central file header.
@@ -661,8 +667,6 @@ impl<W: Write + io::Seek> ZipWriter<W> {
                 .switch_to(file.compression_method, file.compression_level)?;
         }
 
-        self.writing_to_extra_field = false;
-        self.writing_to_central_extra_field_only = false;
         Ok(*data_start)
     }
 
